@@ -177,14 +177,23 @@ def new_cpu(overrides=None, hooked=False, mems=None):
 
 
 RNAMES = {r.name: r for r in RName}
+_REG_KINDS = {}
 
 # ---------------------------------------------------------------------------------------------- snapshot / apply
 def snapshot(cpu, with_mem=True):
     """generic walk over vars(cpu.registers): a register added by a refactor is automatically under the frame check"""
     out = {}
     regs = cpu.registers
+    kinds = _REG_KINDS.get(type(regs))
+    if kinds is None:
+        # which attributes are register objects in a freshly constructed Registers of this class: a step that replaces one of them by a plain
+        # value (or vice versa) has corrupted the register file even if the value looks right
+        kinds = _REG_KINDS[type(regs)] = {k for k, v in vars(regs).items() if isinstance(v, AbstractRegister)}      # first snapshot in a process is of a fresh instance
     for k, v in vars(regs).items():
         if k == 'changed_registers':
+            continue
+        if k in kinds and not isinstance(v, AbstractRegister):
+            out[k] = 'TYPE-CHANGED:' + type(v).__name__
             continue
         if isinstance(v, (bool, int)):
             out[k] = v
